@@ -110,6 +110,7 @@ def gen_prince_world(t):
 
 
 def run_c17(t, tier, res):
+    res.stats["queue_size_knob_%s" % session.draw_queue_knob(t)] += 1
     sample, rdir = gen_prince_world(t)
     lower = t.chance(1, 3)
     res.sample = dict(sample, all_lower=lower)
